@@ -1,5 +1,7 @@
 import WmModel.Props.C12
 import WmModel.Props.C12Tie
+import WmModel.Props.C12Router
+import WmModel.Props.C02Tie
 #print axioms Wm.Retry.never_out_of_fuel
 #print axioms Wm.Retry.attempts_follow_script
 #print axioms Wm.Retry.first_success_wins
@@ -28,3 +30,8 @@ import WmModel.Props.C12Tie
 #print axioms Wm.Retry.old_retry_after_stop_witness
 #print axioms Wm.GoRetry.extracted_retry_eq_model
 #print axioms Wm.GoRetry.extracted_ctx_deadline
+#print axioms Wm.Retry.acked_under_retry_iff
+#print axioms Wm.Retry.published_under_retry
+#print axioms Wm.Retry.nacked_when_all_attempts_fail
+#print axioms Wm.GoHandle.handle_skeleton_eq_model
+#print axioms Wm.GoHandle.publish_skeleton_eq_model
